@@ -437,7 +437,29 @@ fn lay_hits(d: &TreeDesc, avail: Size<AvailableSpace>) -> (Result<Vec<Layout>, S
 ///    trees unless flex_shrink = 0 — is homogeneous ("threshold"), or is once flex_shrink 0 ↦ 1 ("shrink0": with flex_shrink = 0
 ///    the contribution `1 · basis · diff` is quadratic in k at every scale). If a lifted layout meets a grid threshold the
 ///    lifted pair is compared up to the grid thresholds.
+/// a grid container with an auto-repetition whose tracks are all fixed at zero and whose gap on that axis is zero: the number of
+/// repetitions is computed with the repetition counted as 1px wide (known finding c04-auto-repeat-one-px-floor)
+fn has_zero_size_auto_repeat(a: &TreeDesc) -> bool {
+    let zero_fixed = |f: &taffy::NonRepeatedTrackSizingFunction| {
+        let z = |c: CompactLength| c.tag() == CompactLength::LENGTH_TAG && c.value() == 0.0;
+        z(f.min.into_raw()) && z(f.max.into_raw())
+    };
+    let axis = |tpl: &Vec<TrackSizingFunction>, gap: LengthPercentage| {
+        let gz = {
+            let c = gap.into_raw();
+            (c.tag() == CompactLength::LENGTH_TAG || c.tag() == CompactLength::PERCENT_TAG) && c.value() == 0.0
+        };
+        gz && tpl.iter().any(|t| matches!(t, TrackSizingFunction::Repeat(GridTrackRepetition::AutoFill | GridTrackRepetition::AutoFit, fs) if fs.iter().all(zero_fixed)))
+    };
+    let mut nodes = vec![];
+    a.preorder(&mut nodes);
+    nodes.iter().any(|n| n.style.display == Display::Grid && (axis(&n.style.grid_template_columns, n.style.gap.width) || axis(&n.style.grid_template_rows, n.style.gap.height)))
+}
+
 fn c04_attribute(a: &TreeDesc, avail: Size<AvailableSpace>, e: i32, la: &[Layout], lb: &[Layout], ha: Hits, hb: Hits) -> Option<(&'static str, &'static str)> {
+    if has_zero_size_auto_repeat(a) {
+        return Some(("c04-auto-repeat-one-px-floor", "zero-size-auto-repetition"));
+    }
     if ha.thr + hb.thr > 0 && within_threshold_tol(la, lb, pow2(e)) {
         return Some(("c04-grid-track-threshold", "within-tolerance"));
     }
@@ -561,6 +583,20 @@ pub fn run_c04(cfg: &Cfg, out: &mut Out) -> String {
         g.grid_template_columns = vec![minmax(MinTrackSizingFunction::length(0.0), MaxTrackSizingFunction::length(100.0))];
         let a = TreeDesc { style: g, ctx: None, children: vec![TreeDesc { style: Style::DEFAULT, ctx: None, children: vec![] }] };
         c04_one(out, &a, Size { width: AvailableSpace::MaxContent, height: AvailableSpace::MaxContent }, 4);
+    }
+    idx += 1;
+    // fixed: witness of the 1px floor of a zero-size auto-repetition (known finding c04-auto-repeat-one-px-floor):
+    // repeat(auto-fill, 0px) in a 10px-wide grid, a child on column line 15
+    if cfg.wants(idx) {
+        out.begin_case(idx, "fixed:auto-repeat-one-px-floor-witness");
+        let mut g = Style::DEFAULT;
+        g.display = Display::Grid;
+        g.size.width = Dimension::length(10.0);
+        g.grid_template_columns = vec![TrackSizingFunction::Repeat(GridTrackRepetition::AutoFill, vec![length(0.0)])];
+        let mut c = Style::DEFAULT;
+        c.grid_column = Line { start: GridPlacement::from_line_index(15), end: GridPlacement::Auto };
+        let a = TreeDesc { style: g, ctx: None, children: vec![TreeDesc { style: c, ctx: Some(Ctx::Fixed(7.0, 7.0)), children: vec![] }] };
+        c04_one(out, &a, Size { width: AvailableSpace::MaxContent, height: AvailableSpace::MaxContent }, 1);
     }
     idx += 1;
     // fixed: a tree that must be exactly homogeneous (block/grid/flex with definite sizes)
